@@ -141,7 +141,8 @@ func cmdCheck(args []string) int {
 		fmt.Fprintln(os.Stderr, "gosx:", err)
 		return 2
 	}
-	defer pool.Close()
+	defer func() { pool.Close() }()
+	lastFn := ""
 
 	nValidate := pc.Validate[*tier]
 	if nValidate == 0 {
@@ -197,6 +198,19 @@ func cmdCheck(args []string) int {
 			problem("harness %s not found in %s", h.Fn, hpkg)
 			continue
 		}
+		if lastFn != "" && lastFn != h.Fn {
+			// input variables are named by the harness: a fresh pool (interpreters, term
+			// context, solver sessions) per harness function keeps equal names of
+			// different sorts in different harnesses apart
+			ev.rebase()
+			pool.Close()
+			pool, err = explore.NewPool(cfg, c.workers)
+			if err != nil {
+				fmt.Fprintln(os.Stderr, "gosx:", err)
+				return 2
+			}
+		}
+		lastFn = h.Fn
 		s := pool.Explore(entry, explore.Options{Validate: nValidate, Verbose: c.verbose})
 		ev.addHarness(h.Fn, params, s)
 		if c.verbose {
